@@ -6,9 +6,34 @@
 #include <stdexcept>
 #include <chrono>
 
+#include <type_traits>
 #include "awkward/forth/ForthMachine.h"
 
 namespace awkward {
+
+  // Floor division and modulo (Forth, gforth at least, floors; C++ truncates).
+  // Written so that no intermediate overflows: x / -1 and x % -1 are not
+  // evaluated (INT_MIN / -1 traps), the negation wraps around like + - *,
+  // and the remainder is only shifted by a divisor of the opposite sign.
+  template <typename T>
+  static inline T forth_floor_div(T one, T two) {
+    if (two == -1) {
+      typedef typename std::make_unsigned<T>::type U;
+      return (T)((U)0 - (U)one);
+    }
+    T quotient = one / two;
+    T remainder = one % two;
+    return (remainder != 0  &&  ((remainder < 0) != (two < 0))) ? quotient - 1 : quotient;
+  }
+
+  template <typename T>
+  static inline T forth_floor_mod(T one, T two) {
+    if (two == -1) {
+      return 0;
+    }
+    T remainder = one % two;
+    return (remainder != 0  &&  ((remainder < 0) != (two < 0))) ? remainder + two : remainder;
+  }
   // Instruction values are preprocessor macros to be equally usable in 32-bit and
   // 64-bit instruction sets.
 
@@ -3537,8 +3562,7 @@ namespace awkward {
               }
               // Forth (gforth, at least) does floor division; C++ does integer division.
               // This makes a difference for negative numerator or denominator.
-              T tmp = pair[0] / pair[1];
-              pair[0] = tmp * pair[1] == pair[0] ? tmp : tmp - ((pair[0] < 0) ^ (pair[1] < 0));
+              pair[0] = forth_floor_div<T>(pair[0], pair[1]);
               break;
             }
 
@@ -3554,7 +3578,7 @@ namespace awkward {
               }
               // Forth (gforth, at least) does modulo; C++ does remainder.
               // This makes a difference for negative numerator or denominator.
-              pair[0] = (pair[1] + (pair[0] % pair[1])) % pair[1];
+              pair[0] = forth_floor_mod<T>(pair[0], pair[1]);
               break;
             }
 
@@ -3570,11 +3594,8 @@ namespace awkward {
                 return;
               }
               // See notes on division and modulo/remainder above.
-              T tmp = one / two;
-              stack_buffer_[stack_depth_ - 1] =
-                  tmp * two == one ? tmp : tmp - ((one < 0) ^ (two < 0));
-              stack_buffer_[stack_depth_ - 2] =
-                  (two + (one % two)) % two;
+              stack_buffer_[stack_depth_ - 1] = forth_floor_div<T>(one, two);
+              stack_buffer_[stack_depth_ - 2] = forth_floor_mod<T>(one, two);
               break;
             }
 
